@@ -1,14 +1,104 @@
 package main
 
-// group "beacon": constants of beacon policies / usage flags (C25) and of hop expiry (C23).
+import (
+	"fmt"
+	"go/ast"
+	"strings"
+)
+
+// group "beacon": constants of beacon policies / usage flags (C25, C26) and of the hop expiry
+// encoding and MAC layout used by the beacon extender (C23).
 func init() {
-	register("beacon", constGroup("Beacon.lean", "Beacon", []constSpec{
-		{"control/beacon", "DefaultMaxHopsLength", ""},
-		{"control/beacon", "DefaultBestSetSize", ""},
-		{"control/beacon", "DefaultCandidateSetSize", ""},
-		{"control/beacon", "UsageUpReg", ""},
-		{"control/beacon", "UsageDownReg", ""},
-		{"control/beacon", "UsageCoreReg", ""},
-		{"control/beacon", "UsageProp", ""},
-	}))
+	register("beacon", func(c *Ctx) error {
+		var sb strings.Builder
+		sb.WriteString("namespace Scion.Gen.Beacon\n")
+		for _, s := range []constSpec{
+			{"control/beacon", "DefaultMaxHopsLength", ""},
+			{"control/beacon", "DefaultBestSetSize", ""},
+			{"control/beacon", "DefaultCandidateSetSize", ""},
+			{"control/beacon", "UsageUpReg", ""},
+			{"control/beacon", "UsageDownReg", ""},
+			{"control/beacon", "UsageCoreReg", ""},
+			{"control/beacon", "UsageProp", ""},
+			{"pkg/slayers/path", "MacLen", ""},
+			{"pkg/slayers/path", "MACBufferSize", ""},
+		} {
+			v, err := c.ConstNat(s.Dir, s.Name)
+			if err != nil {
+				return err
+			}
+			fmt.Fprintf(&sb, "/-- `%s.%s` -/\ndef %s : Nat := %s\n", s.Dir, s.Name, s.Name, v)
+		}
+		// time.Duration constants cannot be evaluated without importing "time": record the
+		// defining expressions verbatim (the Lean side fixes what they must be).
+		for _, n := range []string{"MaxTTL", "expTimeUnit"} {
+			x, err := bcnConstExpr(c, "pkg/slayers/path", n)
+			if err != nil {
+				return err
+			}
+			fmt.Fprintf(&sb, "/-- defining expression of `pkg/slayers/path.%s` -/\ndef %sExpr : String := %q\n", n, n, x)
+		}
+		// ExpTimeToDuration / ExpTimeFromDuration: guards (if conditions) and return statements
+		for _, fn := range []string{"ExpTimeToDuration", "ExpTimeFromDuration"} {
+			fd, err := c.Func("pkg/slayers/path", "", fn)
+			if err != nil {
+				return err
+			}
+			var guards []string
+			ret := ""
+			for _, st := range fd.Body.List {
+				switch x := st.(type) {
+				case *ast.IfStmt:
+					guards = append(guards, c.Expr(x.Cond))
+				case *ast.ReturnStmt:
+					ret = c.Expr(x)
+				default:
+					guards = append(guards, "stmt: "+c.Expr(st))
+				}
+			}
+			fmt.Fprintf(&sb, "/-- `path.%s`: conditions of the error guards, in order -/\ndef %sGuards : List String := %s\n",
+				fn, fn, LeanStrList(guards))
+			fmt.Fprintf(&sb, "/-- `path.%s`: the final return statement -/\ndef %sReturn : String := %q\n", fn, fn, ret)
+		}
+		// the byte layout written by MACInput
+		fd, err := c.Func("pkg/slayers/path", "", "MACInput")
+		if err != nil {
+			return err
+		}
+		var stmts []string
+		for _, st := range fd.Body.List {
+			stmts = append(stmts, c.Expr(st))
+		}
+		fmt.Fprintf(&sb, "/-- body of `path.MACInput` -/\ndef MACInputBody : List String := %s\n", LeanStrList(stmts))
+		sb.WriteString("end Scion.Gen.Beacon\n")
+		return c.Emit("Beacon.lean", sb.String())
+	})
+}
+
+// constExpr returns the source text of the value of a package-level constant.
+func bcnConstExpr(c *Ctx, dir, name string) (string, error) {
+	p, err := c.Pkg(dir)
+	if err != nil {
+		return "", err
+	}
+	for _, f := range p.files {
+		for _, d := range f.Decls {
+			gd, ok := d.(*ast.GenDecl)
+			if !ok {
+				continue
+			}
+			for _, sp := range gd.Specs {
+				vs, ok := sp.(*ast.ValueSpec)
+				if !ok {
+					continue
+				}
+				for i, id := range vs.Names {
+					if id.Name == name && i < len(vs.Values) {
+						return c.Expr(vs.Values[i]), nil
+					}
+				}
+			}
+		}
+	}
+	return "", fmt.Errorf("constant %s not found in %s", name, dir)
 }
